@@ -147,11 +147,19 @@ def _walk(args):
     from fandango.language.symbols import NonTerminal
     from fandango.language.tree import DerivationTree
     from harness.fan import make, quiet
-    spec, ids, nxt, complete, maxd = args
+    spec, ids, nxt, complete, maxd = args[:5]
+    keep = args[5] if len(args) > 5 else None
     quiet()
     nodes.MAX_REPETITIONS = CAP
-    f = make(spec + PARTIES)
-    g = f.grammar
+    if keep:
+        # the spec sliced to a subset of parties, as `fandango ... --party` does
+        from fandango.language.parse.parse import parse as parse_spec
+        g, _cons = parse_spec(spec + PARTIES, use_stdlib=False, use_cache=False, parties=list(keep))
+        nodes.MAX_REPETITIONS = CAP
+    else:
+        f = make(spec + PARTIES)
+        g = f.grammar
+    label = spec if not keep else spec + "# sliced to the parties %s\n" % list(keep)
     inv = {v: k for k, v in ids.items()}
     fc = PacketForecaster(g)
     viol = []
@@ -182,7 +190,7 @@ def _walk(args):
         try:
             r, opts = options(tree)
         except Timeout:
-            viol.append(("hang:%s:%s" % (spec, name(h)), "predict() did not return within 20 s after the history %s of\n%s" % (name(h), spec), {"spec": spec, "history": name(h)}))
+            viol.append(("hang:%s:%s" % (label, name(h)), "predict() did not return within 20 s after the history %s of\n%s" % (name(h), label), {"spec": label, "history": name(h)}))
             return
         checked[0] += 1
         got = {}
@@ -192,14 +200,14 @@ def _walk(args):
         if set(got) != exp:
             extra = sorted("%s>%s:%s" % k for k in set(got) - exp)
             missing = sorted("%s>%s:%s" % k for k in exp - set(got))
-            viol.append(("options:%s:%s" % (spec, name(h)),
-                         "after the history %s of\n%sthe forecaster offers %s%s" % (name(h), spec, ("the extra option(s) %s " % extra) if extra else "",
+            viol.append(("options:%s:%s" % (label, name(h)),
+                         "after the history %s of\n%sthe forecaster offers %s%s" % (name(h), label, ("the extra option(s) %s " % extra) if extra else "",
                                                                                  ("and misses %s" % missing) if missing else ""),
-                         {"spec": spec, "history": name(h), "extra": extra, "missing": missing}))
+                         {"spec": label, "history": name(h), "extra": extra, "missing": missing}))
         if h and (len(r.complete_trees) > 0) != (h in complete):
-            viol.append(("complete:%s:%s" % (spec, name(h)), "history %s of\n%sis reported %s but is %s" % (
-                name(h), spec, "complete" if r.complete_trees else "incomplete", "a full interaction" if h in complete else "not a full interaction"),
-                {"spec": spec, "history": name(h)}))
+            viol.append(("complete:%s:%s" % (label, name(h)), "history %s of\n%sis reported %s but is %s" % (
+                name(h), label, "complete" if r.complete_trees else "incomplete", "a full interaction" if h in complete else "not a full interaction"),
+                {"spec": label, "history": name(h)}))
         if len(h) >= maxd:
             return
         for key, pkt in sorted(got.items()):
@@ -208,7 +216,7 @@ def _walk(args):
             try:
                 t2 = mount(pkt)
             except Exception as e:  # noqa
-                viol.append(("mount:%s:%s" % (spec, name(h)), "mounting %s after %s raised %s" % (key, name(h), type(e).__name__), {"spec": spec}))
+                viol.append(("mount:%s:%s" % (label, name(h)), "mounting %s after %s raised %s" % (key, name(h), type(e).__name__), {"spec": label}))
                 continue
             walk(t2, h + (ids[key],))
     walk(DerivationTree(NonTerminal("<start>")), ())
@@ -225,8 +233,17 @@ def run(tier, seed):
     for k in range(n):
         gs[len(gs) + 1] = rand_protocol(rnd, three_parties=(k % 3 == 2))
     maxd = 5 if tier == "quick" else 6
+    # the same protocols sliced to the fuzzer-side party (every third one), gid + 1000
+    sliced = {}
+    for gid, g in sorted(gs.items()):
+        if gid % 3 == 0:
+            sliced[gid + 1000] = dict(g, keep=["A"])
+        if gid % 4 == 1:
+            sliced[gid + 2000] = dict(g, keep=["B"])
     path = os.path.join(subdir("c19"), "protocols.json")
-    json.dump([{"gid": gid, "start": g["start"], "rules": g["rules"]} for gid, g in sorted(gs.items())], open(path, "w"))
+    json.dump([{"gid": gid, "start": g["start"], "rules": g["rules"], "keep": g.get("keep", [])}
+               for gid, g in sorted(list(gs.items()) + list(sliced.items()))], open(path, "w"))
+    gs = dict(list(gs.items()) + list(sliced.items()))
     r = run_tlc("Protocol", "Protocol", workers=8, env={"GRAMMARS": path, "MAXMSGS": str(maxd + 1), "MAXNODES": "60", "CAP": str(CAP)},
                 timeout=3000, heap="12g")
     rep.tlc(r, "Protocol(%d grammars, <= %d messages)" % (len(gs), maxd + 1))
@@ -243,19 +260,21 @@ def run(tier, seed):
                 complete[gid].add(h)
     jobs = []
     for gid, g in sorted(gs.items()):
+        if g.get("keep") and not prefixes[gid]:
+            continue        # the slice deletes the start symbol: no protocol is left (the model has no initial state for it)
         nxt = collections.defaultdict(set)
         for h in prefixes[gid]:
             if h:
                 nxt[h[:-1]].add(h[-1])
-        jobs.append((render(g), {k: v for k, v in g["ids"].items()}, dict(nxt), complete[gid], maxd))
+        jobs.append((render(g), {k: v for k, v in g["ids"].items()}, dict(nxt), complete[gid], maxd, g.get("keep")))
     total = 0
-    for (spec, *_), (cnt, viol) in zip(jobs, pmap(_walk, jobs)):
+    for job, (cnt, viol) in zip(jobs, pmap(_walk, jobs)):
         total += cnt
         for v in viol:
             rep.violation(*v)
     if total < 300:
         raise common.Machinery("only %d histories walked" % total)
-    rep.add(traces_validated_against_impl=total, protocols=len(gs), viable_prefixes=sum(len(v) for v in prefixes.values()),
+    rep.add(traces_validated_against_impl=total, protocols=len(gs), sliced_protocols=len(sliced), viable_prefixes=sum(len(v) for v in prefixes.values()),
             rule="every viable message history up to depth %d of %d protocol grammars (TLC state graph), walked in lock-step through "
                  "the real PacketForecaster (history trees built by mounting real messages)" % (maxd, len(gs)))
     rep.sample({"protocol": jobs[0][0], "next_after_empty": sorted(jobs[0][2].get((), []))})
